@@ -14,11 +14,12 @@ import (
 )
 
 // ---------------------------------------------------------------------------------------------- area trace
-// trace <old> <umask> <mode> <kind> <pieces> <fault>
+// trace <old> <umask> <mode> <kind> <pieces> <fault> <cbmode>
 //    -> seq=<canonical system calls in the destination directory> res=<code> dst=<state> tmp=<state> reader=<ok|BAD>
-// kill  <old> <umask> <mode> <kind> <pieces> <fault> <name> <j>     (SIGKILL on entry to the j-th <name> call, 1-based)
+// kill  <old> <umask> <mode> <kind> <pieces> <fault> <cbmode> <name> <j>     (SIGKILL on entry to the j-th <name> call, 1-based)
 //    -> seq=<calls completed before the kill> dst=<state> tmp=<state> reader=<ok|BAD>
 // kind: wf | commit | abort;  fault: none | cb:<j> | write:<k>:<ERR> | close:<ERR> | rename:<ERR>;
+// cbmode: p | s | k (what the callback does with a Write error: propagate / swallow and stop / swallow and go on);
 // name: open | write | close | rename | unlink
 type traceArea struct{}
 
@@ -41,30 +42,38 @@ func (s scenario) nWrites() int { return len(chunkSizes(s.kind, parsePieces(s.pi
 func enumerate(s scenario, full bool, emit func(string)) {
 	nw := s.nWrites()
 	np := len(parsePieces(s.pieces))
-	emit("trace " + s.String() + " none")
+	emit("trace " + s.String() + " none p")
 	var faults []string
 	e := 0
 	nextErr := func() string { e++; return errs3[e%3] }
+	// every write(2) index fails; the callback returns the error ("p"), or swallows it and stops ("s") / keeps writing
+	// ("k") so that only the final Flush can report it
 	for k := 0; k < nw; k++ {
 		if full {
 			for _, x := range errs3 {
-				faults = append(faults, "write:"+strconv.Itoa(k)+":"+x)
+				faults = append(faults, "write:"+strconv.Itoa(k)+":"+x+" p")
+			}
+			if s.kind == "wf" {
+				faults = append(faults, "write:"+strconv.Itoa(k)+":EIO s", "write:"+strconv.Itoa(k)+":ENOSPC k")
 			}
 		} else {
-			faults = append(faults, "write:"+strconv.Itoa(k)+":"+nextErr())
+			faults = append(faults, "write:"+strconv.Itoa(k)+":"+nextErr()+" p")
+			if s.kind == "wf" {
+				faults = append(faults, "write:"+strconv.Itoa(k)+":"+nextErr()+" "+[]string{"s", "k"}[k%2])
+			}
 		}
 	}
 	if full {
 		for _, x := range errs3 {
-			faults = append(faults, "close:"+x)
+			faults = append(faults, "close:"+x+" p")
 			if s.kind != "abort" {
-				faults = append(faults, "rename:"+x)
+				faults = append(faults, "rename:"+x+" p")
 			}
 		}
 	} else {
-		faults = append(faults, "close:"+nextErr())
+		faults = append(faults, "close:"+nextErr()+" p")
 		if s.kind != "abort" {
-			faults = append(faults, "rename:"+nextErr())
+			faults = append(faults, "rename:"+nextErr()+" p")
 		}
 	}
 	if s.kind == "wf" {
@@ -79,7 +88,7 @@ func enumerate(s scenario, full bool, emit func(string)) {
 		}
 		for j := 0; j <= np; j++ {
 			if js[j] {
-				faults = append(faults, "cb:"+strconv.Itoa(j))
+				faults = append(faults, "cb:"+strconv.Itoa(j)+" p")
 			}
 		}
 	}
@@ -89,7 +98,7 @@ func enumerate(s scenario, full bool, emit func(string)) {
 	// strace keeps one inject expression per system call name, so a kill may share its name with the fault only when
 	// it is the very same call
 	kills := func(f string, nWr int) {
-		fk := strings.Split(f, ":")
+		fk := strings.Split(strings.Fields(f)[0], ":")
 		emit("kill " + s.String() + " " + f + " open 1")
 		if fk[0] == "write" {
 			emit("kill " + s.String() + " " + f + " write " + strconv.Itoa(atoi(fk[1])+1))
@@ -105,13 +114,13 @@ func enumerate(s scenario, full bool, emit func(string)) {
 			}
 		}
 	}
-	kills("none", nw)
+	kills("none p", nw)
 	if s.kind == "wf" {
-		kills("cb:"+strconv.Itoa(np/2), nw)
+		kills("cb:"+strconv.Itoa(np/2)+" p", nw)
 	}
 	if full {
 		for _, f := range faults {
-			if !strings.HasPrefix(f, "cb:") && (strings.HasSuffix(f, "EIO") || strings.HasPrefix(f, "write:0:")) {
+			if !strings.HasPrefix(f, "cb:") && (strings.Contains(f, "EIO") || strings.HasPrefix(f, "write:0:")) {
 				kills(f, nw)
 			}
 		}
@@ -143,6 +152,12 @@ func scenarios(full bool) []scenario {
 			}
 		}
 	}
+	// a single Write that by-passes the (empty) buffer; a full buffer followed by a by-passing Write
+	out = append(out,
+		scenario{"file:70000:600", "22", "644", "wf", strconv.Itoa(2 * b)},
+		scenario{"file:70000:600", "22", "644", "wf", strconv.Itoa(b) + "," + strconv.Itoa(b+1)},
+		scenario{"file:70000:600", "22", "644", "wf", "99990," + strconv.Itoa(b+1)},
+	)
 	out = append(out,
 		scenario{"file:5:644", "77", "666", "wf", "1000x70"},
 		scenario{"absent", "27", "755", "commit", "10,0,70000"},
@@ -168,7 +183,7 @@ func (traceArea) Gen(r *hx.Rng, n int, tier string, emit func(string)) {
 		if full || quickFull(s) {
 			enumerate(s, full, func(l string) { all = append(all, l) })
 		} else {
-			all = append(all, "trace "+s.String()+" none")
+			all = append(all, "trace "+s.String()+" none p")
 		}
 		_ = i
 	}
@@ -185,7 +200,8 @@ func quickFull(s scenario) bool {
 		return true
 	}
 	switch s.pieces {
-	case "0", "1", strconv.Itoa(b + 1), "1000x200", "1000x70":
+	case "0", "1", strconv.Itoa(b + 1), "1000x200", "1000x70", strconv.Itoa(2 * b), strconv.Itoa(b) + "," + strconv.Itoa(b+1),
+		"99990," + strconv.Itoa(b+1), "200000":
 		return true
 	case "1000x" + strconv.Itoa((b+1)/1000) + "," + strconv.Itoa((b+1)%1000):
 		return true
@@ -353,14 +369,14 @@ func self() string {
 	return p
 }
 
-func runStrace(dir, dst string, s scenario, cbFail int, injects []string) (string, []call, string) {
+func runStrace(dir, dst string, s scenario, cbFail int, cbMode string, injects []string) (string, []call, string) {
 	tf := filepath.Join(filepath.Dir(dir), filepath.Base(dir)+".trace")
 	defer os.Remove(tf)
 	args := []string{"-f", "-s", "0", "-y", "-e", traceSet}
 	for _, in := range injects {
 		args = append(args, "-e", "inject="+in)
 	}
-	args = append(args, "-o", tf, self(), "child", s.umask, s.mode, dst, s.kind, s.pieces, strconv.Itoa(cbFail))
+	args = append(args, "-o", tf, self(), "child", s.umask, s.mode, dst, s.kind, s.pieces, strconv.Itoa(cbFail), cbMode)
 	cmd := exec.Command("strace", args...)
 	cmd.Env = append(os.Environ(), "GODEBUG=asyncpreemptoff=1")
 	out, _ := cmd.Output()
@@ -381,7 +397,7 @@ func learn() {
 	sys = sysInfo{name: map[string]string{"open": "openat", "write": "write", "close": "close", "rename": "renameat", "unlink": "unlinkat"},
 		offset: map[string]int{}}
 	dir, dst := setup(oldSpec{kind: "absent"})
-	_, calls, e := runStrace(dir, dst, scenario{"absent", "22", "644", "baseline", "-"}, -1, nil)
+	_, calls, e := runStrace(dir, dst, scenario{"absent", "22", "644", "baseline", "-"}, -1, "p", nil)
 	os.RemoveAll(dir)
 	if e != "" || len(calls) == 0 {
 		sys.err = "strace-unusable"
@@ -419,9 +435,10 @@ func probeStrace() string {
 
 func (traceArea) Run(line string) string {
 	f := strings.Fields(line)
-	if len(f) < 7 || (f[0] != "trace" && f[0] != "kill") || (f[0] == "kill" && len(f) != 9) {
+	if (f[0] != "trace" && f[0] != "kill") || (f[0] == "trace" && len(f) != 8) || (f[0] == "kill" && len(f) != 10) {
 		return "bad-op"
 	}
+	cbMode := f[7]
 	sysOnce.Do(learn)
 	if sys.err != "" {
 		return "strace:" + sys.err
@@ -450,7 +467,7 @@ func (traceArea) Run(line string) string {
 	}
 	killKind, killIdx := "", 0
 	if f[0] == "kill" {
-		killKind, killIdx = f[7], atoi(f[8])
+		killKind, killIdx = f[8], atoi(f[9])
 		nm := sys.name[killKind]
 		k := sys.offset[killKind] + killIdx
 		merged := false
@@ -467,7 +484,7 @@ func (traceArea) Run(line string) string {
 	out := ""
 	for attempt := 0; attempt < 3; attempt++ {
 		var drift bool
-		out, drift = runOnce(f, s, old, um, mode, cbFail, injects, wantInj, wantIdx, killKind, killIdx)
+		out, drift = runOnce(f, s, old, um, mode, cbFail, cbMode, injects, wantInj, wantIdx, killKind, killIdx)
 		if !drift {
 			break
 		}
@@ -476,14 +493,14 @@ func (traceArea) Run(line string) string {
 }
 
 // runOnce performs one strace run; drift = the injection did not land on the intended call (retried by the caller).
-func runOnce(f []string, s scenario, old oldSpec, um, mode uint32, cbFail int, injects []string, wantInj string, wantIdx int,
+func runOnce(f []string, s scenario, old oldSpec, um, mode uint32, cbFail int, cbMode string, injects []string, wantInj string, wantIdx int,
 	killKind string, killIdx int) (string, bool) {
 	dir, dst := setup(old)
 	defer os.RemoveAll(dir)
 	oldState := fileState(dst)
 	newState := stateOf(genBytes(0, sum(parsePieces(s.pieces)), seedNew), mode&^um)
 	rd := startReader(dst, oldState, newState)
-	res, calls, e := runStrace(dir, dst, s, cbFail, injects)
+	res, calls, e := runStrace(dir, dst, s, cbFail, cbMode, injects)
 	rs := rd.finish()
 	if e != "" {
 		return "strace:" + e, true
